@@ -1,4 +1,4 @@
-import MgProof.C06.Steps
+import MgProof.C06.Reach
 /-!
 # C06 — property theorems (growable memory pool, `muggle/c/memory/memory_pool.c`)
 
@@ -24,15 +24,6 @@ i.e. capacity < 2^31).
 -/
 namespace MgProof.C06
 open MgModel.C06
-
-/-- States reachable from `init` by valid operations; `r` is the reference state that has
-    accepted every result so far. -/
-inductive Reachable (E : Env) : Pool → Ref → Prop
-  | init (c b : Nat) (p : Pool) (r : Ref) :
-      init E c b = some p → Ref.init E.mal c b = some r → Reachable E p r
-  | step (p : Pool) (r : Ref) (op : Op) (p' : Pool) (res : Res) (r' : Ref) :
-      Reachable E p r → Valid r op → step E p op = .ok (p', res) →
-      Ref.step E.mal r op res = some r' → Reachable E p' r'
 
 /-! ## The refinement: every history is accepted by the reference model -/
 
@@ -167,12 +158,6 @@ theorem buffers_only_grow {E : Env} {p p' : Pool} {op : Op} {res : Res}
     p.slabs <+: p'.slabs ∧ p.slabBytes <+: p'.slabBytes :=
   step_frame h
 
-/-- the live list after an operation with a given result -/
-def liveAfter (live : List BlockId) : Op → Res → List BlockId
-  | .alloc, .blk (some b) => live ++ [b]
-  | .free b, _ => live.erase b
-  | _, _ => live
-
 /-- The live list changes only by the operation's own effect: `alloc` appends the returned
     block, `free b` removes `b`, nothing else — in particular `ensure_space` and the growth
     inside `alloc` keep every live block live (it is not handed out again: `alloc_returns_fresh`). -/
@@ -246,13 +231,6 @@ theorem growth_keeps_live {E : Env} (hE : E.fixEmpty = true) (hB : E.fixBytes = 
   · split <;> rfl
 
 /-! ## Clause: a constant-size pool never grows and reports exhaustion instead -/
-
-theorem ref_ensure_const {mal : Nat → Bool} {r : Ref} (hc : r.flag % 2 = 1) (n : Nat) :
-    Ref.ensure mal r n = (r, decide (n ≤ r.cap)) := by
-  simp only [Ref.ensure]
-  split
-  · next h => simp [h]
-  · next h => simp [Ref.canGrow, hc, h]
 
 /-- While `MUGGLE_MEMORY_POOL_CONSTANT_SIZE` is set, no operation changes the capacity, and
     `alloc` returns NULL exactly when the pool is full (`used = capacity`). Every reachable
@@ -372,39 +350,6 @@ theorem auto_growth_bounded {E : Env} (hE : E.fixEmpty = true) (hB : E.fixBytes 
 
 /-! ## Clause: init either fails or yields that many distinct usable blocks -/
 
-/-- a successful `init` of the repaired source returns exactly `initPool` -/
-theorem init_some_eq {E : Env} (hB : E.fixBytes = true) {c b : Nat} {p : Pool}
-    (hp : init E c b = some p) : p = initPool (if c = 0 then 8 else c) b := by
-  unfold init at hp
-  simp only [slabRequest, hB, if_true] at hp
-  by_cases hb : b = 0
-  · simp [hb] at hp
-  · simp only [hb, if_false] at hp
-    by_cases hov : (if c = 0 then 8 else c) > SIZE_MAX / b
-    · simp [hov] at hp
-    · simp only [hov, if_false] at hp
-      cases h1 : E.mal PTR <;> simp only [h1, Bool.not_false, Bool.not_true, if_true,
-        Bool.false_eq_true, if_false] at hp
-      · cases hp
-      cases h2 : E.mal (PTR * (if c = 0 then 8 else c)) <;> simp only [h2, Bool.not_false,
-        Bool.not_true, if_true, Bool.false_eq_true, if_false] at hp
-      · cases hp
-      cases h3 : E.mal (b * (if c = 0 then 8 else c)) <;> simp only [h3, Bool.not_false,
-        Bool.not_true, if_true, Bool.false_eq_true, if_false] at hp
-      · cases hp
-      cases hp; rfl
-
-/-- `k` consecutive `alloc` calls; the list of results -/
-def allocN (E : Env) : Nat → Pool → Except Err (Pool × List (Option BlockId))
-  | 0, p => .ok (p, [])
-  | k+1, p =>
-    match alloc E p with
-    | .error e => .error e
-    | .ok (q, b) =>
-      match allocN E k q with
-      | .error e => .error e
-      | .ok (q', bs) => .ok (q', b :: bs)
-
 /-- From a state with at least `k` blocks not in use, `k` allocations succeed without any
     growth and return `k` pairwise different blocks of the pool, none of which was live. -/
 theorem allocN_fresh {E : Env} (k : Nat) {p : Pool} {r : Ref} (h : Inv p r)
@@ -480,20 +425,8 @@ theorem init_yields_blocks {E : Env} (hB : E.fixBytes = true) (c b : Nat) (p : P
 /-! ## The source as found violates the property (negation witnesses)
 
 The three statements below are about `Env.orig`, the model of `memory_pool.c` as found
-(tie-checked against the unpatched tree by the same harness; the corresponding replays are
-`corpus/C06/*.ops`). -/
-
-/-- a small history runner for the witnesses: results of `alloc` (block), `free` of the
-    k-th entry of an explicit list, `ensure` -/
-def runOps (E : Env) (p : Pool) : List Op → Except Err (Pool × List Res)
-  | [] => .ok (p, [])
-  | op :: t =>
-    match step E p op with
-    | .error e => .error e
-    | .ok (q, res) =>
-      match runOps E q t with
-      | .error e => .error e
-      | .ok (q', rs) => .ok (q', res :: rs)
+(`variant orig` in the driver). The same histories are `corpus/C06/*.ops`; on the unpatched
+tree the harness gives the same answers, plus the monitor flags `DUP` / `OOB`. -/
 
 /-- As found, growing a pool with nothing in use breaks it: after
     `init(2,8); ensure_space(4); a = alloc(); free(a); alloc() x4` block `(1,0)` is returned
@@ -532,50 +465,6 @@ theorem ensure_overflow_fails :
   refine ⟨_, _, rfl, rfl, rfl, rfl, rfl⟩
 
 /-! ## Non-vacuity -/
-
-/-- decidable form of `Valid` -/
-def validOp (r : Ref) : Op → Bool
-  | .free b => r.live.contains b
-  | .alloc => decide (r.used = r.cap → r.cap + r.growStep < U32)
-  | _ => true
-
-theorem validOp_sound {r : Ref} {op : Op} (h : validOp r op = true) : Valid r op := by
-  cases op with
-  | alloc => simp only [validOp, decide_eq_true_eq] at h; exact h
-  | free b => simpa [validOp, Valid] using h
-  | ensure n => trivial
-  | setFlag f => trivial
-  | setMaxDelta d => trivial
-
-/-- run a list of operations, checking `Valid` and the reference acceptor at every step -/
-def runChecked (E : Env) : Pool → Ref → List Op → Option (Pool × Ref)
-  | p, r, [] => some (p, r)
-  | p, r, op :: t =>
-    if validOp r op then
-      match step E p op with
-      | .ok (q, res) =>
-        match Ref.step E.mal r op res with
-        | some r' => runChecked E q r' t
-        | none => none
-      | .error _ => none
-    else none
-
-theorem runChecked_reachable {E : Env} {p : Pool} {r : Ref} (h : Reachable E p r) (ops : List Op)
-    {p' : Pool} {r' : Ref} (hr : runChecked E p r ops = some (p', r')) : Reachable E p' r' := by
-  induction ops generalizing p r with
-  | nil => simp only [runChecked, Option.some.injEq, Prod.mk.injEq] at hr; rw [← hr.1, ← hr.2]; exact h
-  | cons op t ih =>
-    simp only [runChecked] at hr
-    split at hr
-    · next hv =>
-      split at hr
-      · next q res hs =>
-        split at hr
-        · next r1 hr1 =>
-          exact ih (Reachable.step p r op q res r1 h (validOp_sound hv) hs hr1) hr
-        · cases hr
-      · cases hr
-    · cases hr
 
 /-- A concrete non-trivial reachable state: capacity 2; two allocations, a free, an explicit
     growth with one block live (cursors apart), two allocations up to full, an automatic
